@@ -71,8 +71,10 @@ def pseudo_key(name, value):
         return (name, value)
     v = str(value)
     try:
-        if name in ("PUSH data", "PUSHIMMUTABLE"):
+        if name in ("PUSH data", "PUSHIMMUTABLE", "PUSH #[$]", "PUSH [$]"):
             return (name, int(v, 16))
+        if name == "PUSHLIB":
+            return (name, v)
         return (name, int(v, 10))
     except ValueError:
         return (name, v)
